@@ -23,7 +23,7 @@ def _q(p, n):
 
 
 class Received:
-    __slots__ = ('t', 'step', 'conn', 'msg', 'xml', 'action', 'body', 'idx', 'raw_len', 'behaviour', 'sent_t', 'sent_step')
+    __slots__ = ('t', 'step', 'conn', 'msg', 'xml', 'action', 'body', 'idx', 'raw_len', 'behaviour', 'sent_t', 'sent_step', 't_done')
 
     def __repr__(self):
         return f'<Received #{self.idx} t={self.t:.3f} action={self.action}>'
@@ -89,6 +89,7 @@ class Endpoint:
             rec.raw_len = msg.consumed
             # when did the sender put the first byte of this request on the wire?
             rec.sent_t, rec.sent_step = rec.t, rec.step
+            rec.t_done = None  # virtual time at which a 200 response had been written completely (ok / slow)
             acc = 0
             for wt, wstep, data in getattr(sock.conn.c2s, 'rec', ()):
                 acc += len(data)
@@ -115,6 +116,7 @@ class Endpoint:
             try:
                 if kind == 'ok':
                     sock.sendall(httpmsg.mk_response(200, 'Ok', b''))
+                    rec.t_done = s.now
                 elif kind == 'status':
                     body = beh[2] if len(beh) > 2 else b''
                     sock.sendall(httpmsg.mk_response(beh[1], 'Error' if beh[1] >= 400 else 'Ok', body))
@@ -123,6 +125,7 @@ class Endpoint:
                     N.NET.count('slow_response')
                     s.sleep(beh[1])
                     sock.sendall(httpmsg.mk_response(200, 'Ok', b''))
+                    rec.t_done = s.now
                 elif kind == 'reset_before_response':
                     N.NET.count('reset_before_response')
                     sock.conn.reset()
